@@ -472,12 +472,33 @@ func HarnessC18Widthratio() {
 		verifAssume(false)
 	}
 	set := NewSet("verif", &memLoader{})
-	tpl, err := set.FromString("{% widthratio cur max width as r %}{% if r * m2 - cw2 <= m and cw2 - r * m2 <= m %}Y{% else %}N{% endif %}")
+	tpl, err := set.FromString("{% widthratio cur max width as r %}{{ capture(r) }}")
 	verifAssert(err == nil, "compile")
-	// |r - cur*width/max| <= 1/2   <=>   |2*r*max - 2*cur*width| <= max   (exact integer arithmetic)
-	out, err2 := tpl.Execute(Context{"cur": cur, "max": max, "width": width, "m2": 2 * max, "cw2": 2 * cur * width, "m": max})
-	verifAssert(err2 == nil, "execute")
-	verifAssert(out == "Y", "widthratio must be the integer nearest to cur/max*width")
+	got, seen := 0, false
+	capture := func(v int) string { got, seen = v, true; return "" }
+	_, err2 := tpl.Execute(Context{"cur": cur, "max": max, "width": width, "capture": capture})
+	verifAssert(err2 == nil && seen, "execute")
+	// exact integer arithmetic: ratio = cw2 / m2 with cw2 = 2*cur*width, m2 = 2*max
+	cw2, m2 := 2*cur*width, 2*max
+	d := got*m2 - cw2 // 2*max*(r - ratio)
+	verifAssert(d <= max && -d <= max, "widthratio must be an integer nearest to cur/max*width")
+	if d == max || -d == max {
+		// an exact tie: Django's round() resolves it away from zero (Python 2) or to even (Python 3); nothing else is documented
+		lo := got
+		if d == max {
+			lo = got - 1 // got is the upper neighbour
+		}
+		hi := lo + 1
+		away := hi
+		if cw2 < 0 {
+			away = lo
+		}
+		even := lo
+		if lo%2 != 0 {
+			even = hi
+		}
+		verifAssert(got == away || got == even, "widthratio resolves an exact tie neither away from zero nor to even")
+	}
 }
 
 // ---- formatting filters on concrete inputs (float/time formatting is not encoded: enumeration, not decided by the solver) ----
